@@ -1,4 +1,5 @@
 import RustCcModel.Proofs.CtlSimp
+import RustCcModel.Proofs.BytesInv
 /-! # C03 — each value is dropped at most once; each allocation is freed exactly once
 
 Step-level facts about the three places that release a box (`Cc::drop` of the last owner, the free loop
@@ -54,5 +55,32 @@ theorem newCyclic_guard_no_drop (c : Cfg) (w : World) (k : Nat) (id : Id) (sp : 
   repeat' split at he
   all_goals simp [freeBox, emit, updMeta] at he
   all_goals (rcases he with h | h | h <;> simp_all) 
+
+
+/-! ## Every reachable world (machine invariants, `Proofs/InvReach.lean`, `Proofs/BytesInv.lean`) -/
+
+/-- **A box is released only while it exists, and at most once per step**: whenever any micro-step of any
+execution emits `free x`, the box `x` was allocated and not yet freed before the step, is freed after it, and the
+step emits that event exactly once. -/
+theorem free_only_when_live (c : Cfg) (nH nW nK : Nat) (w : World) (h : Reachable c nH nW nK w) (x : Id)
+    (hx : Event.free x ∈ newEvents w (step c w)) :
+    (w.heap x).boxLive = true ∧ ((step c w).heap x).boxLive = false ∧ (newEvents w (step c w)).count (Event.free x) = 1 :=
+  free_only_live c w (reachable_all c nH nW nK w h) x hx
+
+/-- **… and never again**: a freed identity stays freed (identities are not reused), so together with
+`free_only_when_live` every allocation is released at most once in the whole history. -/
+theorem freed_forever (c : Cfg) (nH nW nK : Nat) (w : World) (h : Reachable c nH nW nK w) (x : Id) (hx : x < w.next)
+    (hd : (w.heap x).boxLive = false) : ((step c w).heap x).boxLive = false :=
+  freed_stays_freed c w (reachable_all c nH nW nK w h).fresh x hx hd
+
+/-- A box released under the collector's or `Cc::drop`'s guard has no pointer left to it, and nothing that exists
+ever points to a released box. -/
+theorem no_pointer_to_freed (c : Cfg) (nH nW nK : Nat) (w : World) (h : Reachable c nH nW nK w) (x : Id)
+    (hd : (w.heap x).boxLive = false) : refs w x = 0 := by
+  have ha := reachable_all c nH nW nK w h
+  have := ha.counts.le x
+  have := (ha.inv.oi.dead x hd).1
+  have e : (w.cores x).rc = (w.heap x).rc := rfl
+  omega
 
 end RustCc.C03
